@@ -273,3 +273,39 @@ def multiply_refusals(ctx: Ctx) -> list[Ob]:
             "multiplying their inputs pairwise yields a product layer with overlapping inputs, i.e. a result that is not decomposable -- the pair must be refused",
         ),
     ]
+
+
+# ------------------------------------------------------------------------------- differentiate outputs
+def differentiate_outputs(ctx: Ctx) -> list[Ob]:
+    """R7e (differentiate) -- the derived circuit lists, for each output of the operand in declared
+    order, that output's differentials followed by its copy: the outputs argument of
+    ``Circuit.from_operation`` is one flattening of ``layers_to_blocks[sl] for sl in sc.outputs`` --
+    the whole per-layer list (no slice), one traversal of ``sc.outputs``."""
+    from ..canon import FlowCanon
+
+    fq = FUNC + "differentiate"
+    f = ctx.repo.func(fq)
+    g = ctx.memo("cfg:" + fq, lambda: build_cfg(f.node))
+    fc = ctx.memo("flowcanon:" + fq, lambda: FlowCanon(g))
+    out: list[Ob] = []
+    for n, st in g.stmts.items():
+        if not isinstance(st, ast.Return) or not isinstance(st.value, ast.Call):
+            continue
+        c = st.value
+        if not (dotted(c.func) or "").endswith("from_operation") or len(c.args) < 3:
+            continue
+        e = fc.expr(c.args[2], n)
+        txt = unparse(e)
+        site = f"{f.module.relpath}:{c.lineno}"
+        gens = [x for x in ast.walk(e) if isinstance(x, (ast.GeneratorExp, ast.ListComp))]
+        over_outputs = [x for x in gens if any(unparse(gn.iter).endswith(".outputs") for gn in x.generators)]
+        sliced = any(isinstance(x, ast.Subscript) and isinstance(x.slice, ast.Slice) for x in ast.walk(e)) or any(isinstance(x, ast.Subscript) and isinstance(x.slice, (ast.Constant, ast.UnaryOp)) and "[ELEM(" in unparse(x.value) for x in ast.walk(e))
+        if len(over_outputs) == 1 and not sliced and "PHI(" not in txt and ".extend(" not in txt:
+            out.append(ok("R7e", fq, "outputs<-sc.outputs", "one traversal of sc.outputs, each output contributing its whole block list (differentials, then the copy)", site))
+        elif not over_outputs:
+            out.append(unres("R7e", fq, "outputs<-sc.outputs", f"the outputs argument `{txt[:60]}` does not iterate sc.outputs in a form the rule knows", site))
+        else:
+            out.append(viol("R7e", fq, "outputs<-sc.outputs", f"the outputs of the derived circuit are assembled as `{unparse(c.args[2])[:50]}` = {txt[:110]}: not one pass over sc.outputs with each output's whole list -- for a multi-output operand the differentials and the copies of different outputs are interleaved differently from [d o1.., o1, d o2.., o2]", site))
+    if not out:
+        out.append(unres("R7e", fq, "outputs<-sc.outputs", "no return through Circuit.from_operation found", f.loc))
+    return out
